@@ -64,6 +64,14 @@ pub struct Ctx {
     /// panic in the n-th destructor of a stored value run inside the SUT window
     pub drop_fuse: Option<u64>,
     pub drops_in_sut: u64,
+    /// destructors of stored objects are callbacks of the general sequence (and so crash
+    /// points of the general fuse) in this run
+    pub drop_in_seq: bool,
+    /// zero-sized objects with destructors: constructions minus destructor runs
+    pub zst_live: i64,
+    pub zst_overdrop: bool,
+    /// objects were leaked on purpose (mem::forget of an owning iterator)
+    pub zst_slack: bool,
     // ids
     pub step: u64,
     pub next_in_step: u64,
@@ -91,8 +99,10 @@ pub fn reset_run() {
     CTX.with(|c| {
         let mut c = c.borrow_mut();
         let totals = c.total_fuse_fired;
+        let dis = c.drop_in_seq;
         *c = Ctx::default();
         c.total_fuse_fired = totals;
+        c.drop_in_seq = dis;
     });
 }
 
@@ -158,6 +168,22 @@ pub fn callback(site: Site) {
     }
 }
 
+pub fn zst_born() {
+    let _g = HarnessGuard::new();
+    CTX.with(|c| c.borrow_mut().zst_live += 1);
+}
+
+pub fn zst_died() {
+    let _g = HarnessGuard::new();
+    CTX.with(|c| {
+        let mut c = c.borrow_mut();
+        c.zst_live -= 1;
+        if c.zst_live < 0 {
+            c.zst_overdrop = true;
+        }
+    });
+}
+
 /// A stored value's destructor runs. If the drop fuse is armed for this ordinal (and no panic
 /// is already unwinding), the destructor panics - after the ledger has recorded the drop.
 pub fn drop_callback() {
@@ -182,6 +208,9 @@ pub fn drop_callback() {
     if blow {
         let _g = HarnessGuard::new();
         std::panic::panic_any(FuseBlown);
+    }
+    if CTX.with(|c| c.borrow().drop_in_seq) {
+        callback(Site::Drop);
     }
 }
 
